@@ -187,10 +187,10 @@ class Env:
 
     # -- running the code under test ----------------------------------------------------
     @contextlib.contextmanager
-    def running(self):
+    def running(self, symbolic=True):
         with warnings.catch_warnings():
             warnings.simplefilter("ignore")
-            if self.mode == "sym":
+            if self.mode == "sym" and symbolic:
                 with symbolic_numpy():
                     yield
             else:
